@@ -46,30 +46,7 @@ fn c13_info_monoid() {
     kani::cover!(a.min_color_count.is_some() && b.min_color_count.is_none());
 }
 
-//# kind=complete tier=quick props=C13 fns=OcTreeLeaf::to_rgba,OcTreeLeaf::from_rgba | a leaf's colour is the per-channel floor of the mean of what was accumulated (acc = q*n + rem, rem < n, q <= 255 for every count n < 2^32) and always fits a byte; a single colour is reproduced exactly
-#[kani::proof]
-#[kani::unwind(2)]
-fn c13_leaf_mean() {
-    let n: u32 = kani::any();
-    kani::assume(n >= 1);
-    let n = n as usize;
-    // every accumulator value reachable by summing n bytes, written as quotient/remainder of the division by n
-    let (qr, qg, qb): (u8, u8, u8) = (kani::any(), kani::any(), kani::any());
-    let (rr, rg, rb): (u32, u32, u32) = (kani::any(), kani::any(), kani::any());
-    kani::assume((rr as usize) < n && (rg as usize) < n && (rb as usize) < n);
-    let leaf = OcTreeLeaf {
-        red_acc: qr as usize * n + rr as usize,
-        green_acc: qg as usize * n + rg as usize,
-        blue_acc: qb as usize * n + rb as usize,
-        color_count: n,
-        index: 0,
-    };
-    let [r, g, b] = leaf.to_rgba().to_rgb();
-    assert!(r == qr && g == qg && b == qb);
-    let c = RGBA::new(kani::any(), kani::any(), kani::any(), 255);
-    assert!(OcTreeLeaf::from_rgba(c).to_rgba() == c);
-    kani::cover!(n > 1000 && qr == 255);
-}
+// (OcTreeLeaf mean arithmetic: proved in the Verus unit `octleaf` - three symbolic 64-bit divisions do not finish in CBMC)
 
 //# kind=complete tier=quick props=C13 fns=ColorError::add,ColorError::between | error diffusion never leaves the byte range: add() clamps every channel to 0..=255 for any finite or infinite error and is the identity for a zero error; between(a,b).add(b) == a
 #[kani::proof]
